@@ -100,6 +100,7 @@ class C13Events(Machine):
                "source": rng.pick(["cosmogenic", "astrophysical"]),
                "earth": rng.pick(["prem", "stub", "stub"]), "stub": [rng.pick([1e6, 1e7, 1e8]), rng.pick([0.0, 0.9])],
                "emin": rng.pick([3, 6, 9]), "emax": 12, "buggify": rng.chance(0.35),
+               "const_energy": rng.pick([None, None, 1e5, 1e9]),
                "dr": rng.pick([100.0, 1000.0, 5000.0]), "dz": rng.pick([50.0, 1000.0, 2800.0]),
                "dx": rng.pick([200.0, 3000.0]), "dy": rng.pick([200.0, 10000.0]),
                "list_n": rng.randint(1, 5), "loop": rng.chance(0.5)}
@@ -118,7 +119,10 @@ class C13Events(Machine):
             if machine.energy_fault:
                 machine.energy_fault = False
                 raise seams.InjectedFault("energy source failed")
-            e = float(10 ** machine.erng.uniform(cfg["emin"], cfg["emax"]))
+            if cfg.get("const_energy"):
+                e = float(cfg["const_energy"])
+            else:
+                e = float(10 ** machine.erng.uniform(cfg["emin"], cfg["emax"]))
             machine.energies.append(e)
             return e
         model = P.particle.CTWInteraction if cfg["model"] == "CTW" else P.particle.GQRSInteraction
@@ -177,7 +181,9 @@ class C13Events(Machine):
                                  ({"op": "count_assign", "value": rng.randint(0, 50)}, 1.0),
                                  ({"op": "count_read"}, 1.0)])
         k = rng.weighted([("throw", 4.0), ("count_read", 1.0), ("count_assign", 0.7), ("energy_fault", 0.6),
-                          ("resize", 0.5)])
+                          ("resize", 0.5), ("switch_model", 0.5)])
+        if k == "switch_model":
+            return {"op": "switch_model", "model": rng.pick(["CTW", "GQRS"])}
         if k == "resize":
             return {"op": "resize", "dr": rng.pick([100.0, 1000.0, 5000.0]), "dz": rng.pick([50.0, 1000.0, 2800.0]),
                     "dx": rng.pick([200.0, 3000.0]), "dy": rng.pick([200.0, 10000.0])}
@@ -256,6 +262,16 @@ class C13Events(Machine):
         self.model_count += delta
         # the next throw works
         return ["energy_fault", self._throw_and_check(1, None)]
+
+    def _op_switch_model(self, op):
+        """The public interaction_model attribute is reassigned on the live generator."""
+        if self.cfg["kind"] == "list":
+            raise Skip("no interaction model")
+        P = self.pyrex
+        self.gen.interaction_model = (P.particle.CTWInteraction if op["model"] == "CTW"
+                                      else P.particle.GQRSInteraction)
+        self.count("probe.model_switched")
+        return ["switch_model", self._throw_and_check(5, None)]
 
     def _op_resize(self, op):
         """The public dimension attributes are reassigned on the live generator."""
